@@ -63,6 +63,12 @@ def is_unitchar(c):
     return c != '' and (is_alpha(c) or c == '%' or c == '_' or c == '/' or c == '$' or c >= '\x80')
 
 
+def check_unit(t, p, q):
+    for i in range(p, q):
+        if t[i] > '\ufffe':
+            raise RefReject(i, 'uncertain: unit character outside the basic multilingual plane')
+
+
 def is_refchar(c):
     return c != '' and (is_alpha(c) or is_digit(c) or c == '_' or c == ':' or c == '-' or c == '.' or c == '~')
 
@@ -129,6 +135,9 @@ def p_quoted(t, p, quote, escapes, keep_backslash=''):
                 continue
             if e == '' or e not in escapes:
                 raise RefReject(p, 'illegal escape')
+            if quote == '`' and e in ':/?#[]@&=;':
+                # whether these URI escapes keep their backslash in the value differs between readers
+                raise RefReject(p, 'uncertain: URI escape whose denotation I am not sure about')
             if e == 'b':
                 out = out + '\b'
             elif e == 'f':
@@ -204,8 +213,45 @@ def p_number(t, p):
     while is_unitchar(at(t, q)):
         q += 1
     if q > p:
+        check_unit(t, p, q)
         unit = t[p:q]
     return q, ('num', txt, unit)
+
+
+def dval(c):
+    return ord(c) - 48
+
+
+def check_date(t, p):
+    """YYYY-MM-DD at p is a real calendar date (year 1..9999)"""
+    y = dval(at(t, p)) * 1000 + dval(at(t, p + 1)) * 100 + dval(at(t, p + 2)) * 10 + dval(at(t, p + 3))
+    m = dval(at(t, p + 5)) * 10 + dval(at(t, p + 6))
+    d = dval(at(t, p + 8)) * 10 + dval(at(t, p + 9))
+    for i in (0, 1, 2, 3, 5, 6, 8, 9):
+        if not ('0' <= at(t, p + i) <= '9'):
+            raise RefReject(p, 'uncertain: non-ASCII digit in a date')
+    if y < 1 or m < 1 or m > 12 or d < 1:
+        raise RefReject(p, 'invalid calendar date')
+    if m == 2:
+        leap = (y % 4 == 0 and y % 100 != 0) or (y % 400 == 0)
+        lim = 29 if leap else 28
+    elif m == 4 or m == 6 or m == 9 or m == 11:
+        lim = 30
+    else:
+        lim = 31
+    if d > lim:
+        raise RefReject(p, 'invalid calendar date')
+
+
+def check_hms(t, p):
+    for i in (0, 1, 3, 4, 6, 7):
+        if not ('0' <= at(t, p + i) <= '9'):
+            raise RefReject(p, 'uncertain: non-ASCII digit in a time')
+    h = dval(at(t, p)) * 10 + dval(at(t, p + 1))
+    mi = dval(at(t, p + 3)) * 10 + dval(at(t, p + 4))
+    se = dval(at(t, p + 6)) * 10 + dval(at(t, p + 7))
+    if h > 23 or mi > 59 or se > 59:
+        raise RefReject(p, 'invalid time of day')
 
 
 def two_digits(t, p):
@@ -231,6 +277,7 @@ def p_time(t, p):
     q = two_digits(t, q)
     q = expect(t, q, ':')
     q = two_digits(t, q)
+    check_hms(t, p)
     hms = t[p:q]
     frac = ''
     if at(t, q) == '.' and is_digit(at(t, q + 1)):
@@ -238,11 +285,17 @@ def p_time(t, p):
         while is_digit(at(t, r)):
             r += 1
         frac = t[q + 1:r]
+        for i in range(len(frac)):
+            if not ('0' <= frac[i] <= '9'):
+                raise RefReject(q, 'uncertain: non-ASCII digit in a time')
+        if len(frac) > 6:
+            raise RefReject(q, 'uncertain: more than six fraction digits')
         q = r
     return q, hms, frac
 
 
 def p_date_or_datetime(t, p):
+    check_date(t, p)
     d = t[p:p + 10]
     q = p + 10
     c = at(t, q)
@@ -258,6 +311,11 @@ def p_date_or_datetime(t, p):
         r = two_digits(t, q + 1)
         r = expect(t, r, ':')
         r = two_digits(t, r)
+        for i in (1, 2, 4, 5):
+            if not ('0' <= at(t, q + i) <= '9'):
+                raise RefReject(q, 'uncertain: non-ASCII digit in an offset')
+        if dval(at(t, q + 1)) * 10 + dval(at(t, q + 2)) > 14 or dval(at(t, q + 4)) * 10 + dval(at(t, q + 5)) > 59:
+            raise RefReject(q, 'uncertain: UTC offset beyond +-14:59')
         off = t[q:r]
         q = r
     tz = None
@@ -270,23 +328,44 @@ def p_date_or_datetime(t, p):
             else:
                 break
         tz = t[q + 1:r]
+        # '+' only in the GMT+n / UTC+n family
+        for i in range(len(tz)):
+            if tz[i] == '+' and not (i == 3 and len(tz) > 4 and (looking_at(tz, 0, 'GMT') or looking_at(tz, 0, 'UTC'))):
+                raise RefReject(q, 'uncertain: "+" inside a zone name')
+        if len(tz) > 3 and (looking_at(tz, 0, 'GMT') or looking_at(tz, 0, 'UTC')) and (tz[3] == '+' or tz[3] == '-'):
+            for i in range(4, len(tz)):
+                if not is_digit(tz[i]):
+                    raise RefReject(q, 'uncertain: GMT/UTC offset zone with a non-digit')
         q = r
     return q, ('datetime', d, hms, frac, off, tz)
 
 
 def p_coorddeg(t, p):
     q = p
+    txt = ''
     if at(t, q) == '-':
+        txt = '-'
         q += 1
-    q, _ = p_digits(t, q)
+    q, d = p_digits(t, q)
+    txt = txt + d
     if at(t, q) == '.':
-        q, _ = p_digits(t, q + 1)
-    return q, t[p:q]
+        q, d2 = p_digits(t, q + 1)
+        txt = txt + '.' + d2
+    return q, txt
+
+
+def no_dups(items, p):
+    for i in range(len(items)):
+        for j in range(i + 1, len(items)):
+            if items[i][0] == items[j][0]:
+                raise RefReject(p, 'uncertain: the same name twice')
 
 
 class Reader:
     def __init__(self, version):
-        self.v3 = not version.startswith('2') and not version.startswith('1')
+        if not (version == '2.0' or version == '3.0'):
+            raise RefReject(0, 'uncertain: a version other than 2.0 and 3.0')
+        self.v3 = version == '3.0'
 
     # -- scalars ----------------------------------------------------------
     def p_scalar(self, t, p):
@@ -332,7 +411,24 @@ class Reader:
                 if at(t, q + 1) == '"' and self.v3:
                     r, s = p_str(t, q + 1)
                     r = expect(t, r, ')')
-                    return r, ('xstr', t[p:q], s)
+                    typ = t[p:q]
+                    if typ == 'hex' or typ == 'b64':
+                        for i in range(len(s)):
+                            c = s[i]
+                            okc = is_hex(c) if typ == 'hex' else (is_alpha(c) or is_digit(c) or c == '+' or c == '/' or c == '=')
+                            if not okc:
+                                raise RefReject(q, 'uncertain: payload of a hex/b64 XStr that a decoder may refuse')
+                        if typ == 'hex' and len(s) % 2 == 1:
+                            raise RefReject(q, 'uncertain: payload of a hex/b64 XStr that a decoder may refuse')
+                        if typ == 'b64' and len(s) % 4 != 0:
+                            raise RefReject(q, 'uncertain: payload of a hex/b64 XStr that a decoder may refuse')
+                        if typ == 'b64':
+                            for i in range(len(s)):
+                                if s[i] == '=' and i < len(s) - 2:
+                                    raise RefReject(q, 'uncertain: payload of a hex/b64 XStr that a decoder may refuse')
+                            if len(s) >= 2 and s[len(s) - 2] == '=' and s[len(s) - 1] != '=':
+                                raise RefReject(q, 'uncertain: payload of a hex/b64 XStr that a decoder may refuse')
+                    return r, ('xstr', typ, s)
                 if looking_at(t, p, 'C(') and q == p + 1:
                     r, lat = p_coorddeg(t, q + 1)
                     r = skip_blanks(t, r)
@@ -394,17 +490,19 @@ class Reader:
         items = []
         while True:
             if at(t, q) == '}':
+                no_dups(items, q)
                 return q + 1, ('dict', items)
             q, k = p_id(t, q)
             if at(t, q) == ':':
-                q = skip_blanks(t, q + 1)
-                q, v = self.p_scalar(t, q)
+                if at(t, q + 1) == ' ':
+                    raise RefReject(q, 'uncertain: blank after a colon')
+                q, v = self.p_scalar(t, q + 1)
                 items.append((k, v))
             else:
                 items.append((k, ('marker',)))
             r = skip_blanks(t, q)
             if at(t, r) == ',':
-                r = skip_blanks(t, r + 1)
+                raise RefReject(r, 'uncertain: comma between dict tags')
             elif r == q and at(t, r) != '}':
                 raise RefReject(r, 'expected blank between tags')
             q = r
@@ -421,16 +519,21 @@ class Reader:
         """zero or more tags, each preceded by exactly the blanks that separate them"""
         items = []
         while at(t, p) == ' ' and is_lower(at(t, skip_blanks(t, p))):
-            p = skip_blanks(t, p)
+            if skip_blanks(t, p) != p + 1:
+                raise RefReject(p, 'uncertain: more than one blank between tags')
+            p = p + 1
             p, k = p_id(t, p)
-            r = skip_blanks(t, p)
-            if at(t, r) == ':':
-                r = skip_blanks(t, r + 1)
-                r, v = self.p_scalar(t, r)
+            if at(t, p) == ':':
+                if at(t, p + 1) == ' ':
+                    raise RefReject(p, 'uncertain: blank after a colon')
+                r, v = self.p_scalar(t, p + 1)
                 items.append((k, v))
                 p = r
             else:
+                if at(t, skip_blanks(t, p)) == ':':
+                    raise RefReject(p, 'uncertain: blank before a colon')
                 items.append((k, ('marker',)))
+        no_dups(items, p)
         return p, items
 
     def p_nl(self, t, p):
@@ -444,9 +547,13 @@ class Reader:
     def p_grid(self, t, p, nested=False):
         p = expect(t, p, 'ver:')
         p, ver = p_str(t, p)
+        if nested and not ((ver == '3.0' and self.v3) or (ver == '2.0' and not self.v3)):
+            raise RefReject(p, 'uncertain: nested grid declaring another version than its document')
         p, meta = self.p_meta(t, p)
         p = self.p_nl(t, p)
         cols = []
+        if at(t, p) == ' ':
+            raise RefReject(p, 'uncertain: blank at the start of a line')
         while True:
             p, name = p_id(t, p)
             p, cm = self.p_meta(t, p)
@@ -456,6 +563,7 @@ class Reader:
                 p = skip_blanks(t, q + 1)
                 continue
             break
+        no_dups(cols, p)
         if nested and looking_at(t, skip_blanks(t, p), '>>'):
             return p, ('grid', ver, meta, cols, [])
         if at(t, skip_blanks(t, p)) == '' and not nested:
@@ -467,10 +575,13 @@ class Reader:
             if c == '' or (nested and looking_at(t, skip_blanks(t, p), '>>')):
                 break
             if c == '\n' or (c == '\r' and at(t, p + 1) == '\n'):
+                if nested:
+                    raise RefReject(p, 'uncertain: blank line inside a nested grid')
                 break                                    # blank line: end of this grid
             row = []
+            if at(t, p) == ' ':
+                raise RefReject(p, 'uncertain: blank at the start of a line')
             while True:
-                p = skip_blanks(t, p)
                 c = at(t, p)
                 if c == ',' or c == '\n' or c == '\r' or c == '' or (nested and looking_at(t, p, '>>')):
                     row.append(('null',))
@@ -479,7 +590,7 @@ class Reader:
                     row.append(v)
                 p = skip_blanks(t, p)
                 if at(t, p) == ',':
-                    p += 1
+                    p = skip_blanks(t, p + 1)
                     continue
                 break
             if len(row) != len(cols):
